@@ -19,7 +19,7 @@ CHECKS = {
             "Trusted: regex-syntax HIR = what regex-automata matches; HIR->SMT translator (self-tested each run); relang/ref.py as the reading of the README; z3. Programs enumerated from a bounded grammar; programs the documentation gives no meaning to are counted as unspecified.",
             "5 C01"),
     "C09": ("relang", TV, "SMT regular-language emptiness: descendants of matched canonical paths minus the language, per program reporting Always",
-            "For every glob / `any` combinator that reports is_exhaustive Always, z3 decides that no canonical path beneath a matched canonical path is unmatched (one query over all paths and all descendants); witnesses replayed through the real is_match.",
+            "For every glob / `any` combinator (and every re-owned glob whose verdict changed) that reports is_exhaustive Always, z3 decides that no canonical path beneath a matched canonical path is unmatched (one query over all paths and all descendants); witnesses replayed through the real is_match.",
             "Trusted base as C01 without the reference semantics (the obligation only uses the program's own language). One-directional: Sometimes/Never are not constrained.",
             "5 C09"),
     "C10": ("relang+kani", TV, "SMT regular-language inclusion: matched canonical paths vs. the language of paths with lo..hi components, per program",
@@ -66,7 +66,7 @@ CHECKS.update({
             "5 C03"),
     "C04": ("relang", TV, "SMT regular-language emptiness per capture group: left-context . (group minus allowed capture language) . right-context, for all well-formed paths and all parses",
             "Structure (one regex group per capturing top-level token, in order, not nested, not under repetition, anchored) is compared per program; for each group z3 decides that no path has a parse in which the capture falls outside what its own sub-expression may match (wildcards/classes never a separator, tree wildcards a run of complete components); sat models are replayed through the real matched().get(i) and only a real capture outside the language is reported.",
-            "The between-capture clause is not decided (stated). All parses are a superset of the engine's leftmost-first parse, so unsat is sound; sat is confirmed on the real engine.",
+            "Between-capture clause: per gap the language of the compiled pattern's top-level pieces between two groups is decided equal to the reference language of the literal/separator tokens between the two sub-expressions (replayed through real capture offsets). All parses are a superset of the engine's leftmost-first parse, so unsat is sound; sat is confirmed on the real engine.",
             "5 C04"),
     "C07": ("relang", TV, "SMT regular-language equality between the implementation's own compiled languages of metamorphically related expressions, for all paths",
             "Families generated from ASTs: alternation vs. union of branch substitutions, bounded repetition vs. unrollings, open repetition vs. prefix + zero-or-more, wrapping in single-branch braces / once-only repetitions, and any([..]) (text, compiled, owned, nested) vs. union of its patterns; z3 decides L(lhs) = ⋃ L(rhs_i); witnesses replayed through the real is_match of every member.",
@@ -95,7 +95,7 @@ CHECKS.update({
 
 CHECKS.update({
     "C14": ("kani", MC, "bounded model checking (Kani/CBMC) of the real entry code on a finite table of concrete path shapes",
-            "For 144 rows (6 spellings of the base x 6 prefixes incl. rooted and `..` x entry depths 0-3; quick tier: a seeded sample of ~25) the root and pivot are computed by the real join_and_get_depth, the walkdir::DirEntry the traversal would deliver is fabricated (mirror transmute), and the real GlobEntry::root_relative_paths / depth are checked against expectations derived from the statement alone: root segment = directory given to the walk (empty for rooted globs), relative segment = prefix components + tail (whole path for rooted), depth = components of the relative segment (rooted: counting or not counting the root). That the relative segment is what is matched / becomes matched() is the C02 step.",
+            "For 144 rows (6 spellings of the base x 6 prefixes incl. rooted and `..` x entry depths 0-3; quick tier: a seeded sample of ~25) the root and pivot are computed by the real join_and_get_depth, the walkdir::DirEntry the traversal would deliver is fabricated (mirror transmute), and the real GlobEntry::root_relative_paths / depth are checked against expectations derived from the statement alone: root segment = directory given to the walk (empty for rooted globs), relative segment = prefix components + tail (whole path for rooted), depth = Path::components().count() of the relative segment (the root directory is a component). That the relative segment is what is matched / becomes matched() is the C02 step.",
             "Bounded by the table and stated as such: the solver's symbolic part is only the file/dir flag; std::path on symbolic bytes does not terminate in CBMC. Failures are replayed on real walks (entry-field battery) or by native concrete playback.",
             "5 C14"),
 })
